@@ -94,6 +94,8 @@ def run_pass(rules, slots, feat):
                     elif a[0] == 'user1': slots[pos].user1 = a[1]
                     elif a[0] == 'attach':
                         slots[pos].parent = slots[pos - 1]; slots[pos].attx = a[1]; slots[pos].atty = a[2]
+                    elif a[0] == 'attach2':         # attach to the slot two before (re-attaching moves the slot from its old parent to the new one)
+                        slots[pos].parent = slots[pos - 2]; slots[pos].attx = a[1]; slots[pos].atty = a[2]
                 if deleted: del slots[pos]
                 else: pos += 1
             i = pos + rule.ret; fired = True
@@ -145,6 +147,7 @@ def compile_rule(rule):
             elif a[0] == 'user': code += push(a[1]) + A('IATTR_SET', SLAT['userDefn'], 0)
             elif a[0] == 'user1': code += push(a[1]) + A('IATTR_SET', SLAT['userDefn'], 1)
             elif a[0] == 'attach': code += push(-1) + A('ATTR_SET_SLOT', SLAT['attTo']) + push(a[1]) + A('ATTR_SET', SLAT['attX']) + push(a[2]) + A('ATTR_SET', SLAT['attY'])
+            elif a[0] == 'attach2': code += push(-2) + A('ATTR_SET_SLOT', SLAT['attTo']) + push(a[1]) + A('ATTR_SET', SLAT['attX']) + push(a[2]) + A('ATTR_SET', SLAT['attY'])
         code += A('DELETE', 'NEXT') if deleted else A('NEXT')
     code += A('RET_ZERO') if rule.ret == 0 else push(rule.ret) + A('POP_RET')
     con = b''
@@ -286,6 +289,15 @@ def programs(tier):
                 test = LRule([], [(IX, [('glyph', OY)])], (0, uk, 0, v))
                 yield dict(kind='stale_user', passes=[dict(rules=[mark]), dict(rules=[dele, ins]), dict(rules=[test])], rtl=0)
                 yield dict(kind='stale_user', passes=[dict(rules=[mark]), dict(rules=[dele]), dict(rules=[ins]), dict(rules=[test])], rtl=0)
+    # re-attachment: two marks are attached to a base by one positioning pass, a second positioning pass moves the first mark to the slot before the base;
+    # the base must keep (and position) its other mark
+    mm = [[0x61, 0x62, 0x6D, 0x6D], [0x62, 0x6D, 0x6D], [0x61, 0x61, 0x62, 0x6D, 0x6D], [0x61, 0x62, 0x6D], [0x61, 0x62, 0x6D, 0x6D, 0x63]]
+    A1 = LRule([], [(IABCD, []), (IM, [('attach', 120, 300)]), (IM, [('attach2', 60, 200)])])
+    A2 = LRule([], [(IABCD, []), (IM, [('attach', 120, 300)])])
+    for first in (A1, A2):
+        for B in (LRule([], [(IABCD, []), (IABCD, []), (IM, [('attach2', 30, 100)])]), LRule([], [(IABCD, []), (IABCD, []), (IM, []), (IM, [('attach', 10, 40)])])):
+            yield dict(kind='reattach', passes=[dict(rules=[first], positioning=True), dict(rules=[B], positioning=True)], rtl=0, texts=mm)
+            yield dict(kind='reattach', passes=[dict(rules=[first, B], positioning=True)], rtl=0, texts=mm)
     # class lookup: PUT_SUBS through lookup classes of every size 1..8 in two member orders; every member is substituted (alone and in a run)
     for (n, lay), (cin, cout) in sorted(SUBCLS.items()):
         mem = CLASSES[cin]; inv = {g: c for c, g in CMAP.items()}
